@@ -57,11 +57,14 @@ PROP = "C18"
 PREFIXES = (None, '  "', 'Bot message: "')
 SUFFIXES = (None, '"')
 STOPS = ((), ('"\n',), ("\nuser ",))
-MODES = ("direct", "langchain", "pipe")
+# "tokenonly": the LangChain callback is invoked with the token text alone (the `chunk` keyword is optional in the callback
+# contract; many LLM integrations do not pass it)
+MODES = ("direct", "langchain", "pipe", "tokenonly")
 ENDS = {
     "direct": ("push_empty", "push_none"),
     "langchain": ("llm_end", "empty_token+llm_end"),
     "pipe": ("llm_end", "empty_token+llm_end"),
+    "tokenonly": ("llm_end", "empty_token+llm_end"),
 }
 
 # realistic shapes (every non-empty character-prefix of each of them is checked as a text of its own)
@@ -546,6 +549,8 @@ class Rig:
     def _deliver(self, chunk):
         if self.mode == "direct":
             return self.h.push_chunk(chunk)
+        if self.mode == "tokenonly":
+            return self.h.on_llm_new_token(chunk, run_id=None)
         return self.h.on_llm_new_token(chunk, chunk=self._token(chunk), run_id=None)
 
     def initial_states(self):
@@ -618,7 +623,10 @@ async def _real(cfg, mode, chunks, end):
         if mode == "direct":
             await h.push_chunk(t)
         else:
-            await h.on_llm_new_token(t, chunk=token(t), run_id=None)
+            if mode == "tokenonly":
+                await h.on_llm_new_token(t, run_id=None)
+            else:
+                await h.on_llm_new_token(t, chunk=token(t), run_id=None)
 
     consumer = asyncio.create_task(consume())
     try:
